@@ -494,11 +494,12 @@ class DictMixin(object):
             other = {}
 
         try:
-            for key, value in other.items():
-                self.__setitem__(key, value)
+            items = other.items()
         except AttributeError:
-            for key, value in other:
-                self[key] = value
+            # a sequence of pairs
+            items = other
+        for key, value in items:
+            self[key] = value
 
     def setdefault(self, key, default=None):
         try:
